@@ -53,7 +53,7 @@ class Arm(Robot):
         self.rot_tolerance = 0.00001
         self.joint_mins = np.ones(self.num_dof) * np.pi * -1
         self.joint_maxs = np.ones(self.num_dof) * np.pi
-        self.max_vels = np.ones(self.num_dof) * np.Inf
+        self.max_vels = np.ones(self.num_dof) * np.inf
         self.max_effort = np.ones(self.num_dof) * np.inf
 
         #Visual and Collision
